@@ -110,6 +110,9 @@ class _GraphIO(collections.UserList["_core.Value"]):
         # This is a shallow copy, so the values are not copied, just the references
         return self.data.copy()
 
+    # copy.copy() must not create a second tracked list for the same graph
+    __copy__ = copy
+
     def __setitem__(self, i, item) -> None:
         """Replace an input/output to the node."""
         if isinstance(item, Iterable) and isinstance(i, slice):
@@ -345,6 +348,13 @@ class GraphInitializers(collections.UserDict[str, "_core.Value"]):
     def add(self, value: _core.Value) -> None:
         """Add an initializer to the graph."""
         self[value.name] = value  # type: ignore[index]
+
+    def copy(self) -> dict[str, _core.Value]:  # type: ignore[override]
+        """Return a shallow copy as a plain dict that is not tracked by the graph."""
+        return self.data.copy()
+
+    # copy.copy() must not create a second tracked mapping for the same graph
+    __copy__ = copy
 
     def update(self, other=(), /, **kwargs) -> None:
         """Update the initializers. All items are checked before any of them is set."""
